@@ -260,11 +260,25 @@ def main():
         if k["id"] not in seen_known:
             seen_known.add(k["id"])
             print("KNOWN-FINDING: property=%s %s [%s %s: '%s' fails, e.g. inputs %s]" % (prop, k["what"], job["h"], job.get("p", {}), v["check"], dict(zip(v["input_names"], v["inputs"]))))
+    dev_hs = None
     for n, (v, job) in enumerate(viol):
         path = os.path.join(ROOT, "replays", prop, "%s-%d.json" % (job["h"], n))
         json.dump(dict(property=prop, harness=job["h"], params=job.get("p", {}), inputs=v["inputs"], input_names=v["input_names"], check=v["check"], message=v["message"], found_by=v["found_by"]), open(path, "w"), indent=1)
+        # the exploration and the first replay ran in the release profile (what users link); the first
+        # violations are also replayed in the dev profile (debug assertions, overflow checks)
+        dev = ""
+        if n < 2 and os.environ.get("VERIF_DEV_REPLAY", "1") == "1":
+            if dev_hs is None:
+                b = subprocess.run(["cargo", "build", "-p", "hs"], cwd=ROOT, env=env(), capture_output=True, text=True)
+                dev_hs = os.path.join(ROOT, "target", "debug", "hs") if b.returncode == 0 else ""
+            if dev_hs:
+                try:
+                    r = subprocess.run([dev_hs, "replay", path], cwd=ROOT, env=env(), capture_output=True, text=True, timeout=600)
+                    dev = "; dev profile: " + ("reproduced" if r.returncode == 1 else "NOT reproduced (rc %d)" % r.returncode)
+                except Exception as ex:  # noqa
+                    dev = "; dev profile: replay failed (%s)" % str(ex)[:80]
         print("VIOLATION property=%s replay=%s" % (prop, path))
-        print("  harness %s %s: obligation '%s' fails on %s (%s; reproduced natively)" % (job["h"], job.get("p", {}), v["check"], dict(zip(v["input_names"], v["inputs"])), v["message"][:200]))
+        print("  harness %s %s: obligation '%s' fails on %s (%s; reproduced natively in the release profile%s)" % (job["h"], job.get("p", {}), v["check"], dict(zip(v["input_names"], v["inputs"])), v["message"][:200], dev))
         rc = 1
     if inconclusive and rc == 0:
         rc = 2
